@@ -40,7 +40,7 @@ ASSUMPTIONS = [
 MINIMUMS = {
     'quick': {'evaluations': 4000, 'invoked': 2500, 'must-refuse': 300, 'positional-involved': 2500,
               'must-refuse:unset-required-positional-before-set': 100, 'dag_cases': 500},
-    'thorough': {'evaluations': 200000, 'invoked': 150000, 'must-refuse': 5000, 'dag_cases': 20000},
+    'thorough': {'evaluations': 100000, 'invoked': 30000, 'must-refuse': 5000, 'dag_cases': 20000},
 }
 
 VAR = fdl.VARARGS
